@@ -1012,12 +1012,162 @@ fn run_pair(shape: &str, c: &mut Cur<'_>) -> Option<String> {
     Some(format!("p{} S {} C {}", summary, st, ct))
 }
 
+
+// ---------------------------------------------------------------- generated client against generated server
+//
+//   gen.<j> <cli snd calls> <cli acc calls> <srv acc calls> <srv snd calls> <n>
+// j = method of pool service a.S (0 unary, 3 server-streaming, 4 client-streaming, 5 bidi); the
+// compression settings are made through the GENERATED builder methods (`send_compressed`,
+// `accept_compressed` of the generated client and server types), a recording transport sits
+// between them.  observed: qe=<grpc-encoding|-> qa=<grpc-accept-encoding|-> qf=<request flags>
+//                          re=<grpc-encoding|-> rf=<response flags> out=<ok|errN>
+
+#[derive(Default)]
+struct GenWire {
+    qe: String,
+    qa: String,
+    qf: String,
+    re: String,
+    rf: String,
+}
+
+#[derive(Clone)]
+struct RecTransport<S> {
+    inner: S,
+    wire: Arc<Mutex<GenWire>>,
+}
+
+fn flags_of(data: &[u8]) -> String {
+    let mut out = String::new();
+    let mut i = 0;
+    while i + 5 <= data.len() {
+        let len = u32::from_be_bytes([data[i + 1], data[i + 2], data[i + 3], data[i + 4]]) as usize;
+        out.push_str(&data[i].to_string());
+        i += 5 + len;
+    }
+    if out.is_empty() {
+        "-".into()
+    } else {
+        out
+    }
+}
+
+fn hv(h: &http::HeaderMap, n: &str) -> String {
+    let v: Vec<String> = h.get_all(n).iter().map(|v| String::from_utf8_lossy(v.as_bytes()).replace(' ', "_")).collect();
+    if v.is_empty() {
+        "-".into()
+    } else {
+        v.join("+")
+    }
+}
+
+impl<S> tower::Service<http::Request<tonic::body::Body>> for RecTransport<S>
+where
+    S: tower::Service<http::Request<tonic::body::Body>, Response = http::Response<tonic::body::Body>> + Clone + Send + 'static,
+    S::Future: Send,
+    S::Error: Send,
+{
+    type Response = http::Response<tonic::body::Body>;
+    type Error = S::Error;
+    type Future = Pin<Box<dyn Future<Output = Result<Self::Response, S::Error>> + Send>>;
+    fn poll_ready(&mut self, cx: &mut Context<'_>) -> Poll<Result<(), S::Error>> {
+        self.inner.poll_ready(cx)
+    }
+    fn call(&mut self, req: http::Request<tonic::body::Body>) -> Self::Future {
+        let mut inner = self.inner.clone();
+        let wire = self.wire.clone();
+        Box::pin(async move {
+            let (parts, body) = req.into_parts();
+            let data = body.collect().await.map(|c| c.to_bytes()).unwrap_or_default();
+            {
+                let mut w = wire.lock().unwrap();
+                w.qe = hv(&parts.headers, "grpc-encoding");
+                w.qa = hv(&parts.headers, "grpc-accept-encoding");
+                w.qf = flags_of(&data);
+            }
+            let req = http::Request::from_parts(parts, tonic::body::Body::new(http_body_util::Full::new(data)));
+            let resp = inner.call(req).await?;
+            let (parts, body) = resp.into_parts();
+            let collected = body.collect().await.ok();
+            let (data, trailers) = match collected {
+                Some(c) => {
+                    let t = c.trailers().cloned();
+                    (c.to_bytes(), t)
+                }
+                None => (Bytes::new(), None),
+            };
+            {
+                let mut w = wire.lock().unwrap();
+                w.re = hv(&parts.headers, "grpc-encoding");
+                w.rf = flags_of(&data);
+            }
+            let mut frames: Vec<Result<http_body::Frame<Bytes>, Status>> = Vec::new();
+            if !data.is_empty() {
+                frames.push(Ok(http_body::Frame::data(data)));
+            }
+            if let Some(t) = trailers {
+                frames.push(Ok(http_body::Frame::trailers(t)));
+            }
+            Ok(http::Response::from_parts(parts, tonic::body::Body::new(http_body_util::StreamBody::new(tokio_stream::iter(frames)))))
+        })
+    }
+}
+
+fn run_gen(j: &str, c: &mut Cur<'_>) -> Option<String> {
+    use crate::c10::pool::{self, Handler};
+    let j: usize = j.parse().ok()?;
+    let csnd = c.next()?;
+    let cacc = c.next()?;
+    let sacc = c.next()?;
+    let ssnd = c.next()?;
+    let n = c.num()?;
+    let mut srv = pool::p0::s_server::SServer::new(Handler::default());
+    for ch in sacc.chars().filter(|c| *c != '-') {
+        srv = srv.accept_compressed(enc_of(ch)?);
+    }
+    for ch in ssnd.chars().filter(|c| *c != '-') {
+        srv = srv.send_compressed(enc_of(ch)?);
+    }
+    let wire = Arc::new(Mutex::new(GenWire::default()));
+    let mut cli = pool::p0::s_client::SClient::new(RecTransport { inner: srv, wire: wire.clone() });
+    for ch in csnd.chars().filter(|c| *c != '-') {
+        cli = cli.send_compressed(enc_of(ch)?);
+    }
+    for ch in cacc.chars().filter(|c| *c != '-') {
+        cli = cli.accept_compressed(enc_of(ch)?);
+    }
+    let arg = "x".repeat(n);
+    let out = RT.with(|rt| {
+        rt.block_on(async {
+            let r: Result<usize, Status> = match j {
+                0 => cli.m0(Request::new(arg)).await.map(|_| 1),
+                3 => match cli.m3(Request::new(arg)).await {
+                    Ok(s) => pool::drain(s.into_inner()).await.map(|v| v.len()),
+                    Err(e) => Err(e),
+                },
+                4 => cli.m4(Request::new(tokio_stream::iter(vec![arg.clone(), arg]))).await.map(|_| 1),
+                _ => match cli.m5(Request::new(tokio_stream::iter(vec![arg.clone(), arg]))).await {
+                    Ok(s) => pool::drain(s.into_inner()).await.map(|v| v.len()),
+                    Err(e) => Err(e),
+                },
+            };
+            match r {
+                Ok(_) => "ok".to_string(),
+                Err(st) => format!("err{}", st.code() as i32),
+            }
+        })
+    });
+    let w = wire.lock().unwrap();
+    Some(format!("qe={} qa={} qf={} re={} rf={} out={}", w.qe, w.qa, w.qf, w.re, w.rf, out))
+}
+
 pub fn execute(case: &str) -> String {
     let mut c = Cur { t: case.split(' ').filter(|s| !s.is_empty()).collect(), i: 0 };
     let r = match c.next() {
         Some(k) if k.starts_with("srv.") => run_srv(&k[4..], &mut c),
         Some(k) if k.starts_with("cli.") => run_cli(&k[4..], &mut c),
         Some(k) if k.starts_with("pair.") => run_pair(&k[5..], &mut c),
+        Some(k) if k.starts_with("gen.") => run_gen(&k[4..], &mut c),
         _ => None,
     };
     r.unwrap_or_else(|| "bad-case".into())
@@ -1657,6 +1807,21 @@ pub fn generate(tier: &str, rng: &mut Rng) -> Vec<String> {
                         continue;
                     }
                     out.push(cli_line(shape, snd, acc, &[], &[], 1, b"\0req", &[], None, &fr, Some(0)));
+                }
+            }
+        }
+    }
+
+    // ---- generated client against generated server (settings through the generated builder methods)
+    for j in [0usize, 3, 4, 5] {
+        for csnd in ["-", "g", "d", "z", "gz"] {
+            for cacc in ["-", "g", "zd", "gdz", "dg"] {
+                for sacc in ["-", "g", "dz", "gdz"] {
+                    for ssnd in ["-", "g", "z", "dg", "zdg"] {
+                        if (j + csnd.len() + cacc.len() * 2 + sacc.len() * 3 + ssnd.len() * 5) % 3 == 0 || thorough {
+                            out.push(format!("gen.{} {} {} {} {} {}", j, csnd, cacc, sacc, ssnd, (j + cacc.len()) % 4));
+                        }
+                    }
                 }
             }
         }
